@@ -226,16 +226,21 @@ impl Rig {
             if self.shadows[i].known {
                 let sh = &self.shadows[i];
                 let lde = sh.last_dead_eval.unwrap_or(0);
+                // smallest gap over every pair a reading of the statement could sample (from the second value on), but
+                // the claim is only made when the strictest reading (the first value is a mere baseline: third value
+                // on) has a sample as well
                 let mut a = f64::INFINITY;
-                for k in 2..sh.fresh.len() {
+                let mut strict_sample = false;
+                for k in 1..sh.fresh.len() {
                     if sh.fresh[k].1 > lde {
                         let g = sh.fresh[k].0 - sh.fresh[k - 1].0;
                         if g <= self.cfg.max_interval {
                             a = a.min(g.as_secs_f64());
+                            strict_sample |= k >= 2;
                         }
                     }
                 }
-                if a.is_finite() {
+                if a.is_finite() && strict_sample {
                     let elapsed = (now - sh.fresh.last().unwrap().0).as_secs_f64();
                     let denom = a.min(self.cfg.initial_interval.as_secs_f64());
                     if denom > 0.0 && self.cfg.phi >= (elapsed / denom) * (1.0 + 1e-9) + 1e-12 {
